@@ -78,6 +78,10 @@ type Interp struct {
 	symCells  map[string]*Cell
 	constGlob map[*ssa.Global]AVal
 	constTab  map[*ssa.Global]*constTable
+	// LocalBuilders: a strings.Builder that lives in a local of an interpreted function is modelled as
+	// a string accumulator (content kept per cell); loops widen a content that keeps changing
+	LocalBuilders bool
+	bld           map[*Cell]AVal
 	hdrCache  map[*ssa.Function]map[*ssa.BasicBlock]bool
 }
 
@@ -177,6 +181,7 @@ func (in *Interp) runOnce(fn *ssa.Function, args []AVal) (tr Trace) {
 	in.journal = nil
 	in.stack = nil
 	in.invCount = map[*ssa.Function]int{}
+	in.bld = map[*Cell]AVal{}
 	if in.ResetHook != nil {
 		in.ResetHook()
 	}
@@ -316,6 +321,7 @@ type loopSnap struct {
 	nEvents int
 	mem     string
 	allocN  int
+	bld     map[*Cell]string
 }
 
 type aiConverged struct{}
@@ -573,7 +579,17 @@ func (in *Interp) callFn(fn *ssa.Function, args []AVal, bind []AVal) AVal {
 				}
 				in.journal = kept
 			}
-			sn := &loopSnap{nEvents: in.monitoredEvents()}
+			if prevSnap := fr.snap[b]; prevSnap != nil && old != nil && len(in.bld) > 0 {
+				for cell, cur := range in.bld {
+					if pk, had := prevSnap.bld[cell]; had && pk != keyOf(cur) {
+						in.bld[cell] = Sym{K: fmt.Sprintf("%s:builder%d", loopID, cell.ID), T: types.Typ[types.String]}
+					}
+				}
+			}
+			sn := &loopSnap{nEvents: in.monitoredEvents(), bld: map[*Cell]string{}}
+			for cell, cur := range in.bld {
+				sn.bld[cell] = keyOf(cur)
+			}
 			if prevSnap := fr.snap[b]; prevSnap != nil {
 				sn.allocN = prevSnap.allocN
 				sn.jmark = prevSnap.jmark
@@ -589,6 +605,9 @@ func (in *Interp) callFn(fn *ssa.Function, args []AVal, bind []AVal) AVal {
 				if c.ID <= sn.allocN {
 					ms = append(ms, fmt.Sprintf("%d=%s", c.ID, keyOf(c.V)))
 				}
+			}
+			for cell, k := range sn.bld {
+				ms = append(ms, fmt.Sprintf("b%d=%s", cell.ID, k))
 			}
 			sort.Strings(ms)
 			sn.mem = strings.Join(ms, ";")
@@ -961,6 +980,14 @@ func (in *Interp) evalValue(fr *frame, v ssa.Value) AVal {
 		return Sym{K: fmt.Sprintf("makemap#%d", in.allocN), T: x.Type()}
 	case *ssa.MakeSlice:
 		in.allocN++
+		// an empty slice of strings that is then filled by appends: its elements stay known
+		if n, ok := isCstInt(in.val(fr, x.Len)); ok && n == 0 {
+			if st, ok := x.Type().Underlying().(*types.Slice); ok {
+				if bt, ok := st.Elem().Underlying().(*types.Basic); ok && bt.Info()&types.IsString != 0 {
+					return ListVal{T: x.Type()}
+				}
+			}
+		}
 		return Sym{K: fmt.Sprintf("makeslice#%d(len=%s)", in.allocN, keyOf(in.val(fr, x.Len))), T: x.Type()}
 	case *ssa.MakeChan:
 		in.allocN++
@@ -1069,6 +1096,31 @@ func (in *Interp) convert(a AVal, to types.Type) AVal {
 
 // cmpAtom builds the canonical atom for a comparison and decides it.
 func (in *Interp) cmp(op token.Token, x, y AVal) AVal {
+	// the length of a text known to be non-empty, against a constant below 1
+	if t, ok := x.(Tok); ok && t.Dom == "poslen" {
+		if k, ok := isCstInt(y); ok {
+			switch {
+			case k <= 0 && (op == token.GTR || op == token.NEQ || op == token.GEQ):
+				return cstBool(true)
+			case k <= 0 && (op == token.EQL || op == token.LSS || op == token.LEQ):
+				return cstBool(false)
+			case k == 1 && op == token.GEQ:
+				return cstBool(true)
+			case k == 1 && op == token.LSS:
+				return cstBool(false)
+			}
+		}
+	}
+	if t, ok := y.(Tok); ok && t.Dom == "poslen" {
+		if k, ok := isCstInt(x); ok {
+			switch {
+			case k <= 0 && (op == token.LSS || op == token.NEQ || op == token.LEQ):
+				return cstBool(true)
+			case k <= 0 && (op == token.EQL || op == token.GTR || op == token.GEQ):
+				return cstBool(false)
+			}
+		}
+	}
 	kx, ky := keyOf(x), keyOf(y)
 	switch op {
 	case token.EQL, token.NEQ:
@@ -1263,12 +1315,31 @@ func (in *Interp) doCall(fr *frame, site ssa.Instruction, cc *ssa.CallCommon, ar
 	if b, ok := cc.Value.(*ssa.Builtin); ok && !cc.IsInvoke() {
 		return in.builtin(site, b.Name(), args, resT)
 	}
+	if in.LocalBuilders && strings.HasPrefix(name, "(*strings.Builder).") && len(args) >= 1 {
+		if r, ok := in.localBuilder(strings.TrimPrefix(name, "(*strings.Builder)."), args); ok {
+			return r
+		}
+	}
 	if name != "" {
 		if m, ok := in.Models[name]; ok {
 			if r, ok := m(in, site, cc, args); ok {
 				return r
 			}
 		}
+	}
+	if name == "strings.Join" && len(args) == 2 {
+		if l, ok := args[0].(ListVal); ok {
+			var out AVal = cstStr("")
+			for i, e := range l.E {
+				if i > 0 {
+					out = strCat(out, args[1])
+				}
+				out = strCat(out, e)
+			}
+			return out
+		}
+	}
+	if name == "builtin.len" || name == "len" {
 	}
 	if cc.IsInvoke() {
 		if m, ok := in.Models["invoke:"+cc.Method.Name()+"@"+shortType(cc.Value.Type().String())]; ok {
@@ -1291,6 +1362,10 @@ func (in *Interp) doCall(fr *frame, site ssa.Instruction, cc *ssa.CallCommon, ar
 			}
 		}
 		if callee.Blocks != nil && callee.Pkg != nil && strings.HasPrefix(callee.Pkg.Pkg.Path(), ModPath) && !in.NoInline[fnName(callee)] {
+			// a call through a closure value: the evaluated function value was put in front of the arguments
+			if _, viaClosure := cc.Value.(*ssa.MakeClosure); viaClosure && len(args) == len(callee.Params)+1 {
+				args = args[1:]
+			}
 			return in.callFn(callee, args, bind)
 		}
 		return mk(name + "(" + argKeys(args) + ")")
@@ -1345,6 +1420,44 @@ func (in *Interp) builtin(site ssa.Instruction, name string, args []AVal, resT *
 		}
 	case "append":
 		in.allocN++
+		// list of known strings: append keeps the elements
+		if len(args) == 2 {
+			var base *ListVal
+			switch b := args[0].(type) {
+			case ListVal:
+				base = &b
+			case Slc:
+				if b.Hi-b.Lo == 0 && resT.Len() == 1 {
+					if st, ok := resT.At(0).Type().Underlying().(*types.Slice); ok {
+						if bt, ok := st.Elem().Underlying().(*types.Basic); ok && bt.Info()&types.IsString != 0 {
+							base = &ListVal{T: resT.At(0).Type()}
+						}
+					}
+				}
+			case Cst:
+				if b.V == nil && resT.Len() == 1 {
+					if st, ok := resT.At(0).Type().Underlying().(*types.Slice); ok {
+						if bt, ok := st.Elem().Underlying().(*types.Basic); ok && bt.Info()&types.IsString != 0 {
+							base = &ListVal{T: resT.At(0).Type()}
+						}
+					}
+				}
+			}
+			if base != nil {
+				if more, ok := args[1].(Slc); ok {
+					out := ListVal{E: append([]AVal{}, base.E...), T: base.T}
+					for i := more.Lo; i < more.Hi && i < len(more.Arr.Elems); i++ {
+						out.E = append(out.E, more.Arr.Elems[i].V)
+					}
+					if len(out.E) <= 64 {
+						return out
+					}
+				}
+				if more, ok := args[1].(ListVal); ok {
+					return ListVal{E: append(append([]AVal{}, base.E...), more.E...), T: base.T}
+				}
+			}
+		}
 		ks := []string{}
 		for _, a := range args {
 			ks = append(ks, keyOf(a))
@@ -1355,6 +1468,28 @@ func (in *Interp) builtin(site ssa.Instruction, name string, args []AVal, resT *
 		}
 		return Sym{K: "append(" + strings.Join(ks, ", ") + ")", T: t}
 	case "copy":
+		// element-wise when both slices have statically known bounds; otherwise the destination's
+		// known elements become unknown
+		if len(args) == 2 {
+			if dst, ok := args[0].(Slc); ok {
+				if src, ok := args[1].(Slc); ok {
+					n := dst.Hi - dst.Lo
+					if m := src.Hi - src.Lo; m < n {
+						n = m
+					}
+					for i := 0; i < n && dst.Lo+i < len(dst.Arr.Elems) && src.Lo+i < len(src.Arr.Elems); i++ {
+						dst.Arr.Elems[dst.Lo+i].V = src.Arr.Elems[src.Lo+i].V
+					}
+					return cstInt(int64(n))
+				}
+				if c, ok := args[1].(Cst); ok && c.V == nil {
+					return cstInt(0) // copy from a nil slice copies nothing
+				}
+				for i := dst.Lo; i < dst.Hi && i < len(dst.Arr.Elems); i++ {
+					dst.Arr.Elems[i].V = Sym{K: fmt.Sprintf("copied(%s)[%d]", keyOf(args[1]), i-dst.Lo), T: dst.Arr.Elems[i].T}
+				}
+			}
+		}
 		return Sym{K: "copy()", T: types.Typ[types.Int]}
 	case "delete":
 		in.Emit("mapdelete", site, args...)
@@ -1393,4 +1528,53 @@ func stripTypeSuffix(k string) string {
 		k = strings.TrimSuffix(k, ".Type()")
 	}
 	return k
+}
+
+
+// localBuilder: methods of a strings.Builder held in a local cell of an interpreted function.
+func (in *Interp) localBuilder(method string, args []AVal) (AVal, bool) {
+	pt, ok := args[0].(Ptr)
+	if !ok || pt.C.Label != "" || pt.C.T == nil || !isNamed(pt.C.T, "strings", "Builder") {
+		return nil, false
+	}
+	cur, has := in.bld[pt.C]
+	if !has {
+		cur = cstStr("")
+	}
+	switch method {
+	case "WriteString":
+		in.bld[pt.C] = strCat(cur, args[1])
+		return Tup{E: []AVal{Sym{K: "n", T: types.Typ[types.Int]}, Cst{}}}, true
+	case "WriteByte", "WriteRune":
+		if i, ok := isCstInt(args[1]); ok {
+			in.bld[pt.C] = strCat(cur, cstStr(string(rune(i))))
+		} else {
+			in.bld[pt.C] = strCat(cur, Sym{K: "char(" + keyOf(args[1]) + ")", T: types.Typ[types.String]})
+		}
+		if method == "WriteRune" {
+			return Tup{E: []AVal{Sym{K: "n", T: types.Typ[types.Int]}, Cst{}}}, true
+		}
+		return Cst{}, true
+	case "String":
+		return cur, true
+	case "Len":
+		if s, ok := isCstStr(cur); ok {
+			return cstInt(int64(len(s))), true
+		}
+		// a content with at least one non-empty constant part is not empty
+		if sc, ok := cur.(StrCat); ok {
+			for _, p := range sc.Parts {
+				if s, ok := isCstStr(p); ok && s != "" {
+					return Tok{Dom: "poslen", Name: keyOf(cur)}, true
+				}
+			}
+		}
+		return Sym{K: "len(" + keyOf(cur) + ")", T: types.Typ[types.Int]}, true
+	case "Reset":
+		in.bld[pt.C] = cstStr("")
+		return Tup{}, true
+	case "Grow":
+		return Tup{}, true
+	}
+	return nil, false
 }
